@@ -303,6 +303,9 @@ class PathGen:
         if r < 0.30:
             if rng.random() < 0.3 and pdepth < self.max_pred_depth:
                 return self.gen_below(chain)
+            if rng.random() < 0.25:
+                # two hops: get_match from the candidate, then a search from the Match that came back
+                return ["nb2", self.gen_path(chain, maxlen=2, pdepth=pdepth, minlen=1), self.gen_path(None, maxlen=2, pdepth=pdepth, minlen=1)]
             return ["nb", rng.choice(["m", "v", "x", "mt", "vt"]), self.gen_path(chain, maxlen=3, pdepth=pdepth, minlen=1)]
         if r < 0.62:
             return ["has", self.gen_arg(chain, pdepth, False), self.gen_fns()]
